@@ -28,6 +28,41 @@ class Ob:
         return d
 
 
+def run_shared(ctx, mod, Rx, tier):
+    """run another property's rule module for the obligations this one shares with it. Results are kept per analysis context (the modules are deterministic); a
+    property that is already being computed further up the chain takes nothing from itself (A shares from B, B shares from A: the cycle is cut at the second visit,
+    and a result computed with a cut is not kept, so nobody downstream sees an incomplete one)"""
+    name = Rx.prop
+    cache = ctx.__dict__.setdefault("_shared_cache", {})
+    active = ctx.__dict__.setdefault("_shared_active", [])
+    if name in active:
+        ctx.__dict__["_shared_cut"] = True
+        return
+    key = (name, tier)
+    if key in cache:
+        obs, err = cache[key]
+        for o in obs:
+            Rx.obs.append(o)
+            Rx._keys.add(o.key)
+        if err is not None:
+            raise AnalysisError(err)
+        return
+    active.append(name)
+    outer_cut = ctx.__dict__.get("_shared_cut", False)
+    ctx.__dict__["_shared_cut"] = False
+    err = None
+    try:
+        mod.run(ctx, Rx, tier)
+    except AnalysisError as x:
+        err = str(x)
+        raise
+    finally:
+        active.pop()
+        if not ctx.__dict__["_shared_cut"]:
+            cache[key] = (list(Rx.obs), err)
+        ctx.__dict__["_shared_cut"] = ctx.__dict__["_shared_cut"] or outer_cut
+
+
 class Rules:
     """collector handed to every property module"""
 
